@@ -114,8 +114,8 @@ class Reader(typing.Generic[parsmod.Source, parsmod.Feature, laymod.Native], met
         if actual == expected:
             return data
         columns = {
-            e.name: c if e.kind.match(a.kind) else [e.kind.cast(v) for v in c]
-            for e, a, c in zip(expected, actual, data.to_columns())
+            e.name: c if e.kind.match(actual[e.name].kind) else [e.kind.cast(v) for v in c]
+            for e, c in zip(expected, data.to_columns())
         }
         return laymod.Frame(pandas.DataFrame(columns))
 
